@@ -144,7 +144,7 @@ def describe_class(cls, by_class_marker) -> Dict[int, dict]:
     import betterproto
 
     mod = sys.modules[cls.__module__]
-    hints = typing.get_type_hints(cls, vars(mod))
+    hints = typing.get_type_hints(cls, vars(mod), {})
     out = {}
     for f in dataclasses.fields(cls):
         meta = betterproto.FieldMetadata.get(f)
